@@ -14,6 +14,7 @@ import r21_clones
 import r22_adjoint
 import r24_errdrop
 import r25_dupdef
+import r26_stale
 import r06_validate
 import r07_cache
 import r08_toporder
@@ -97,6 +98,23 @@ R24_SCOPES = {
 
 def r24(ctx, prop):
     return r24_errdrop.run(ctx.F(), R24_SCOPES[prop])
+
+
+R26_SCOPES = {
+    "C01": ("feos::",),
+    "C03": ("feos_core::state::State", "feos_core::density_iteration", "state::builder"),
+    "C04": ("phase_equilibria::vle_pure", "phase_equilibria::phase_diagram_pure"),
+    "C05": ("phase_equilibria::tp_flash", "phase_equilibria::bubble_dew", "phase_equilibria::phase_diagram_binary",
+            "phase_equilibria::phase_envelope"),
+    "C06": ("state::critical_point",),
+    "C07": ("phase_equilibria::stability_analysis",),
+    "C17": ("feos_dft::functional", "feos_dft::convolver", "::dft::", "FunctionalContribution"),
+    "C18": ("feos_dft::solver", "feos_dft::profile", "feos_dft::interface", "feos_dft::adsorption", "feos_dft::pdgt"),
+}
+
+
+def r26(ctx, prop):
+    return r26_stale.run(ctx.F(), R26_SCOPES[prop])
 
 
 R25_SCOPES = {
@@ -264,16 +282,16 @@ PROPERTY_RULES = {
     "C14": [r14, r13, r10_identifier, r21],
     "C15": [r15],
     "C20": [r10_transport, r21, r25, r24],
-    "C01": [r1_all, r2, r7, r8, r4, r25, r24],
+    "C01": [r1_all, r2, r7, r8, r4, r25, r24, r26],
     "C13": [r1_guard, r8, r21],
-    "C17": [r1_functional, r8, r22, r25, r21],
+    "C17": [r1_functional, r8, r22, r25, r21, r26],
     "C11": [r9, r7],
-    "C03": [r6, r17, r4, r5, r25, r24],
-    "C04": [r4, r16, r25, r24],
-    "C05": [r4, r5, r16, r25, r24],
-    "C06": [r4, r1_all, r21, r25, r24],
-    "C07": [r5, r4, r25, r24],
-    "C18": [r4, r16, r25, r24],
+    "C03": [r6, r17, r4, r5, r25, r24, r26],
+    "C04": [r4, r16, r25, r24, r26],
+    "C05": [r4, r5, r16, r25, r24, r26],
+    "C06": [r4, r1_all, r21, r25, r24, r26],
+    "C07": [r5, r4, r25, r24, r26],
+    "C18": [r4, r16, r25, r24, r26],
 }
 
 
